@@ -54,6 +54,34 @@ PROPS = {
         "assumes": ["std Write::write_all loop, Vec::with_capacity(16384) giving capacity exactly 16384 and never reallocating, "
                     "itoap producing `decimal v` (all validated by the wr stream)"],
     },
+    "C12": {
+        "streams": [
+            {"name": "rn", "module": "rn", "quick": 2000, "thorough": 60000, "profiles": ["debug", "release"],
+             "oracle_prefix": "o_rn"},
+            {"name": "o_rn", "module": "rn", "quick": 2000, "thorough": 60000, "kind": "oracle",
+             "profiles": ["debug"], "args": {"prefix": "o_rn"}},
+        ],
+        "rule": "random and-inverter graphs: arbitrary variable numbering with gaps (codes up to 2^41), defining literals of either "
+                "polarity, gates in arbitrary order, constants / negations / repeated and complementary gate inputs, structurally "
+                "equal gates, shared and unused gates, zero-size sections, all 8 (trim, structural_hash, const_fold) combinations; "
+                "ill-formed graphs: cycles (self loops, through negated edges, rings of up to 64 gates, behind finished sub-graphs, "
+                "reachable or not), undefined literals in every section, doubly defined literals (input/input, input/gate, gate/gate, "
+                "constant, either polarity), latch-state clashes; chains of 2000 gates (thorough: 8000) entered from the top, "
+                "acyclic and cyclic; trace = whole OrderedAig + Aig::from numbering + lit_map().get of every literal of the case, "
+                "or error kind + literal; non-trivial = at least 2 gates; distinct by case text",
+        "theorems_note": "Props/C12.v: order/numbering of every successful result; equivalence of every output, next-state, bad, "
+                         "constraint, justice, fairness literal and every lit_map entry for all assignments, all graphs without a "
+                         "doubly defined variable, all 8 option combinations; each error kind implies the corresponding defect; "
+                         "no unwrap panic; no OutOfFuel for any graph, cyclic or not (orbit argument for the middle-of-the-stack test + potential); "
+                         "C12_latch_clash_refuted (finding D10)",
+        "assumes": ["zwohash::HashMap as a finite map (std++ gmap); literal type usize, codes as unbounded N (no overflow of "
+                    "last_code += 2 below 2^63 gates; the truncating `code as u8/u16/u32` of narrower literal types is not modelled)",
+                    "wf_defs (no variable defined twice, latch states included) is a hypothesis of C12_sound: on the unchanged "
+                    "code a latch state clash is not reported (finding D10, C12_latch_clash_refuted)",
+                    "the transfer loop runs on fuel 32*(#gates+2) per call in the model; C12_terminates proves it is never exhausted",
+                    "symbols and comment are cloned unchanged by renumber_aig and are not modelled; 'no recursion' is structural "
+                    "(explicit stack) and is exercised by the deep chains"],
+    },
     "C16": {
         "streams": [
             {"name": "tx_scan", "module": "tx", "quick": 1500, "thorough": 40000, "profiles": ["debug", "release"],
